@@ -48,6 +48,9 @@ def gen_component(rng, kind=None):
     return dict(var_type="int", elements=[lo, lo + rng.randint(1, 9)])
   if kind == "categorical":
     n = rng.randint(2, 4)
+    if rng.random() < 0.15:   # labels are arbitrary distinct integers: large and next to each other too
+      base = rng.choice([500123, -250000, 10 ** 9, 2 ** 40])
+      return dict(var_type="categorical", elements=rng.sample([base + k for k in range(-2, 4)], n))
     return dict(var_type="categorical", elements=rng.sample([-7, -2, 0, 1, 2, 3, 5, 8, 13, 40], n))
   n = rng.randint(2, 5)
   vals = sorted(rng.sample([-4.5, -3, -1.25, -1, -0.5, 0, 0.25, 0.75, 1, 2.5, 4, 9], n))
@@ -355,7 +358,8 @@ def gen_case(rng):
         xs.append(encode_ref(dom, gen_valid_point(rng, dom)))
       else:
         xs.append(feasible_relaxed(rng, dom, want=rng.random() < 0.9) or gen_relaxed_point(rng, dom))
-    return "decode", dict(dom=dom, xs=xs, T=rng.choice(TEMPS))
+    # at the vertices of the relaxed box (encodings) the weights are 0 ** (1/T) and 1 ** (1/T): exact for EVERY temperature, also above 1
+    return "decode", dict(dom=dom, xs=xs, T=rng.choice(TEMPS + ([2.0, 3.0, 64.0, 100.0, 1000.0, 1e6] if style == "encoded" else [])))
   if kind in ("decode_ic", "snapfeas", "intnbrs", "feasnbrs"):
     return gen_ic_case(rng, kind)
   if kind == "lsto":
@@ -734,6 +738,9 @@ def real_component(rng, kind):
     lo = rng.randint(-50, 50)
     return dict(var_type="int", elements=[lo, lo + rng.randint(1, 40)])
   if kind == "categorical":
+    if rng.random() < 0.15:
+      base = rng.choice([500123, -250000, 10 ** 9, 2 ** 40])
+      return dict(var_type="categorical", elements=rng.sample(range(base - 3, base + 6), rng.randint(2, 6)))
     return dict(var_type="categorical", elements=rng.sample(range(-20, 60), rng.randint(2, 6)))
   vals = sorted({round(rng.uniform(-5, 5) * scale, rng.randint(0, 6)) for _ in range(rng.randint(2, 7))})
   if len(vals) < 2:
@@ -765,7 +772,7 @@ def gen_search_case(rng):
   if kind == "task":
     opts = sorted({round(rng.uniform(0.01, 1), rng.randint(1, 4)) for _ in range(rng.randint(1, 5))})
     return kind, dict(costs=[rng.choice([rng.random(), rng.choice(opts), (opts[0] + opts[-1]) / 2]) for _ in range(rng.randint(1, 6))], options=opts)
-  T = rng.choice([None, None, 0, 0.2, 1.0, 0.5, 0.01, 0.003, 3.0, rng.uniform(0.01, 2)])
+  T = rng.choice([None, None, 0, 0.2, 1.0, 0.5, 0.01, 0.003, 3.0, rng.uniform(0.01, 2), 50.0, 1000.0])
   seed = rng.randint(0, 2**31 - 1)
   if kind == "decode_ic":
     if rng.random() < 0.5:
